@@ -1,16 +1,18 @@
 ---------------------------- MODULE MC_PageMap ----------------------------
 (* Emits, for every file in the trace, the page body ranges found by the reference reader  *)
 (* (used to enumerate damage positions "inside the stored bytes of a page body").          *)
+(* layout = TRUE: page headers and sizes only, bodies opaque (codecs without a TLA+ model).  *)
 EXTENDS ParquetFile, TLC, Json, IOUtils
 VARIABLE i
 Files == ndJsonDeserialize(IOEnv.TRACE)
 Init == i = 0
 Next == i < Len(Files) /\ i' = i + 1
-Emit == i = 0 \/ LET f == ParseFile(Files[i].bytes) IN
+Emit == i = 0 \/ LET f == IF Files[i].layout THEN ParseLayout(Files[i].bytes) ELSE ParseFile(Files[i].bytes) IN
           PrintT(ToJson([id |-> Files[i].id, ok |-> f.ok,
                          pages |-> IF ~f.ok THEN <<>> ELSE
                             Flatten([g \in 1..Len(f.rgs) |-> Flatten([c \in 1..Len(f.rgs[g].cols) |->
                                [k \in 1..Len(f.rgs[g].cols[c].pages) |->
                                   [g |-> g - 1, c |-> c - 1, k |-> k, first |-> f.rgs[g].cols[c].pages[k].off + f.rgs[g].cols[c].pages[k].hdrLen,
-                                   len |-> f.rgs[g].cols[c].pages[k].clen, kind |-> f.rgs[g].cols[c].pages[k].kind]]])])]))
+                                   len |-> f.rgs[g].cols[c].pages[k].clen, kind |-> f.rgs[g].cols[c].pages[k].kind,
+                                   hasCrc |-> f.rgs[g].cols[c].pages[k].hasCrc, crcOk |-> f.rgs[g].cols[c].pages[k].crcOk]]])])]))
 =============================================================================
